@@ -153,4 +153,146 @@ theorem packedPowers_spec (q hb : Nat) (hq : q < 2 ^ 31) (hq0 : 0 < q) (hhb : hb
     rw [e] at i1
     exact i1
 
+/-! ### metadata-only twins of the table constructors -/
+
+def fwdMetas (q logQ bsAfter : Nat) : Nat → Nat → Nat → Outcome (List StepMeta × Nat)
+  | 0, _, bs => .ok ([], bs)
+  | fuel + 1, nn, bs =>
+    let doReduce := bs == 64
+    let bs := if doReduce then bsAfter else bs
+    let q2bs := wu64 (q * 2 ^ (bs - logQ))
+    if nn ≥ 4 then
+      let bs1 := bs + 1
+      let halfBs := (bs1 + 1) / 2
+      let bs2 := halfBs + logQ + 1
+      let newBs := max bs1 bs2
+      if newBs > 64 then .panic "assert"
+      else
+        match fwdMetas q logQ bsAfter fuel (nn / 2) newBs with
+        | .ok (ls, b) => .ok ({ q2bs := q2bs, bs := newBs, halfBs := halfBs, mask := maskOf halfBs, reduce := doReduce } :: ls, b)
+        | o => o
+    else
+      match fwdMetas q logQ bsAfter fuel (nn / 2) (bs + 1) with
+      | .ok (ls, b) => .ok ({ q2bs := q2bs, bs := bs + 1, halfBs := 0, mask := 0, reduce := doReduce } :: ls, b)
+      | o => o
+
+theorem fwdLevels_metas (q logQ omega n bsAfter : Nat) :
+    ∀ (fuel nn bs : Nat) (ls : List Level) (b : Nat), fwdLevels q logQ omega n bsAfter fuel nn bs = .ok (ls, b) →
+      fwdMetas q logQ bsAfter fuel nn bs = .ok (ls.map Prod.fst, b) ∧ ls.length = fuel := by
+  intro fuel
+  induction fuel with
+  | zero =>
+    intro nn bs ls b h
+    simp only [fwdLevels, Outcome.ok.injEq, Prod.mk.injEq] at h
+    obtain ⟨rfl, rfl⟩ := h
+    simp [fwdMetas]
+  | succ f ih =>
+    intro nn bs ls b h
+    unfold fwdLevels at h
+    unfold fwdMetas
+    simp only [] at h ⊢
+    generalize (if (bs == 64) = true then bsAfter else bs) = bsx at h ⊢
+    by_cases h4 : nn ≥ 4
+    · rw [if_pos h4] at h ⊢
+      by_cases hnb : max (bsx + 1) ((bsx + 1 + 1) / 2 + logQ + 1) > 64
+      · rw [if_pos hnb] at h; cases h
+      · rw [if_neg hnb] at h ⊢
+        cases hrec : fwdLevels q logQ omega n bsAfter f (nn / 2) (max (bsx + 1) ((bsx + 1 + 1) / 2 + logQ + 1)) with
+        | ok v =>
+          obtain ⟨ls', b'⟩ := v
+          rw [hrec] at h
+          simp only [Outcome.ok.injEq, Prod.mk.injEq] at h
+          obtain ⟨rfl, rfl⟩ := h
+          obtain ⟨i1, i2⟩ := ih _ _ _ _ hrec
+          rw [i1]
+          simp [i2]
+        | err e => rw [hrec] at h; cases h
+        | panic c => rw [hrec] at h; cases h
+    · rw [if_neg h4] at h ⊢
+      cases hrec : fwdLevels q logQ omega n bsAfter f (nn / 2) (bsx + 1) with
+      | ok v =>
+        obtain ⟨ls', b'⟩ := v
+        rw [hrec] at h
+        simp only [Outcome.ok.injEq, Prod.mk.injEq] at h
+        obtain ⟨rfl, rfl⟩ := h
+        obtain ⟨i1, i2⟩ := ih _ _ _ _ hrec
+        rw [i1]
+        simp [i2]
+      | err e => rw [hrec] at h; cases h
+      | panic c => rw [hrec] at h; cases h
+
+/-! ### twiddles of the forward table -/
+
+theorem pow_two_pow_sq {R : Type*} [Monoid R] (x : R) (e : Nat) : x ^ 2 ^ e * x ^ 2 ^ e = x ^ 2 ^ (e + 1) := by
+  rw [← pow_add, pow_succ]; congr 1; ring
+
+theorem fwdLevels_tw (q logQ omega n bsAfter k : Nat) (hn : n = 2 ^ k) (hk : k ≤ 16)
+    (hq : 2 ^ 17 < q) (hq31 : q < 2 ^ 31) (hω : omega < q) :
+    ∀ (j : Nat), j ≤ k → ∀ (bs : Nat) (ls : List Level) (b : Nat),
+      fwdLevels q logQ omega n bsAfter j (2 ^ j) bs = .ok (ls, b) → FwdTwOK q ((cz q omega) ^ 2 ^ (k - j + 1)) ls := by
+  intro j
+  induction j with
+  | zero =>
+    intro _ bs ls b h
+    simp only [fwdLevels, Outcome.ok.injEq, Prod.mk.injEq] at h
+    obtain ⟨rfl, rfl⟩ := h
+    trivial
+  | succ j ih =>
+    intro hj bs ls b h
+    unfold fwdLevels at h
+    simp only [] at h
+    have hhalf : 2 ^ (j + 1) / 2 = 2 ^ j := by rw [pow_succ]; omega
+    rw [hhalf] at h
+    generalize (if (bs == 64) = true then bsAfter else bs) = bsx at h
+    by_cases h4 : 2 ^ (j + 1) ≥ 4
+    · rw [if_pos h4] at h
+      by_cases hnb : max (bsx + 1) ((bsx + 1 + 1) / 2 + logQ + 1) > 64
+      · rw [if_pos hnb] at h; cases h
+      · rw [if_neg hnb] at h
+        set hb := (bsx + 1 + 1) / 2 with hhb
+        have hb32 : hb ≤ 32 := by
+          have : max (bsx + 1) (hb + logQ + 1) ≤ 64 := by omega
+          have : bsx + 1 ≤ 64 := le_trans (le_max_left _ _) this
+          omega
+        cases hrec : fwdLevels q logQ omega n bsAfter j (2 ^ j) (max (bsx + 1) (hb + logQ + 1)) with
+        | ok v =>
+          obtain ⟨ls', b'⟩ := v
+          rw [hrec] at h
+          simp only [Outcome.ok.injEq, Prod.mk.injEq] at h
+          obtain ⟨rfl, rfl⟩ := h
+          have hlen := (fwdLevels_metas q logQ omega n bsAfter _ _ _ _ _ hrec).2
+          have hdiv : n / 2 ^ j = 2 ^ (k - j) := by rw [hn, Nat.pow_div (by omega) (by decide)]
+          have hexp : 2 ^ (k - j) < q - 1 := by
+            have : 2 ^ (k - j) ≤ 2 ^ 16 := Nat.pow_le_pow_right (by decide) (by omega)
+            omega
+          obtain ⟨pe, pl⟩ := modqPow_nonneg omega q (2 ^ (k - j)) (by omega) (by omega) (by omega) hexp
+          rw [← hdiv] at pe pl
+          obtain ⟨t1, t2⟩ := packedPowers_spec q hb hq31 (by omega) hb32 _ pl (2 ^ j - 1) _ pl
+          have hroot : cz q (modqPow omega ((n / 2 ^ j : Nat) : Int) q) = (cz q omega) ^ 2 ^ (k - j) := by
+            rw [cz_eq_of_modEq pe, hdiv]; unfold cz; push_cast; rfl
+          have hkj : k - (j + 1) + 1 = k - j := by omega
+          rw [hkj]
+          refine ⟨?_, ?_, ?_⟩
+          · show (packedPowers q hb (2 ^ j - 1) _ _).length + 1 = 2 ^ ls'.length
+            rw [t2, hlen]; have := Nat.one_le_two_pow (n := j); omega
+          · show TwFrom q hb _ _ (packedPowers q hb (2 ^ j - 1) _ _)
+            rw [← hroot]; exact t1
+          · have := ih (by omega) _ _ _ hrec
+            rw [pow_two_pow_sq]
+            exact this
+        | err e => rw [hrec] at h; cases h
+        | panic c => rw [hrec] at h; cases h
+    · rw [if_neg h4] at h
+      have hj0 : j = 0 := by
+        rcases Nat.eq_zero_or_pos j with h0 | h0
+        · exact h0
+        · exfalso; apply h4
+          have : 2 ^ 1 ≤ 2 ^ j := Nat.pow_le_pow_right (by decide) h0
+          rw [pow_succ]; omega
+      subst hj0
+      simp only [fwdLevels, pow_zero] at h
+      simp only [Outcome.ok.injEq, Prod.mk.injEq] at h
+      obtain ⟨rfl, rfl⟩ := h
+      exact ⟨by simp, trivial, trivial⟩
+
 end Ntt120
